@@ -171,7 +171,7 @@ def run(rep, br, proofs, rng, tier):
                     ("u32", [0, 2**32-1]), ("dur", INTS)]:
         for v in vals:
             add("toobj", [h, str(v)]); add("toobjalt", [h, str(v)])
-    for b in F32:
+    for b in F32 + ["3dcccccd", "3e4ccccd", "3e99999a", "c02ccccd", "40490fdb", "3a83126f"] + ["%08x" % rand_f32(rng) for _ in range(40)]:
         add("toobj", ["f32", b]); add("toobjalt", ["f32", b])
     for i in range(n):
         k = i % 6
@@ -216,6 +216,12 @@ def run(rep, br, proofs, rng, tier):
                     oracle_fail.append((c, "integer width changed the numeric value"))
             elif c["kind"] == "toobjalt":
                 oracle_fail.append((c, "ToObjectAlt rejected a supported integer width"))
+        elif c["kind"] in ("toobj", "toobjalt") and a[0] == "f32":
+            import struct
+            x = struct.unpack(">f", struct.pack(">I", int(a[1], 16)))[0]
+            if x == x:   # not NaN: the float64 with exactly the same numeric value
+                exp = "(ok (f %016x))" % struct.unpack(">Q", struct.pack(">d", x))[0]
+                if out != exp: oracle_fail.append((c, "float32 %r did not convert to the float with the same numeric value: %s, expected %s" % (x, out, exp)))
         elif c["kind"] in ("toobj", "toobjalt") and has_other(a):
             if not out.startswith("(err"): oracle_fail.append((c, "unsupported Go type (possibly nested) not reported as error"))
         if "(gonil)" in out:
